@@ -28,6 +28,8 @@ pub assume_specification<'a>[ <Chars<'a> as Clone>::clone ](c: &Chars<'a>) -> (r
 
 pub open spec fn suffix(a: Seq<char>, b: Seq<char>) -> bool { exists|k: int| 0 <= k <= a.len() && b == a.skip(k) }
 
+/// the characters consumed between cursor states with remaining inputs `a` (before) and `b` (after)
+pub open spec fn eaten(a: Seq<char>, b: Seq<char>) -> Seq<char> { a.subrange(0, a.len() - b.len()) }
 pub proof fn lemma_utf8len_skip(s: Seq<char>, k: int)
     requires 0 <= k <= s.len()
     ensures utf8len(s) >= utf8len(s.skip(k)) + k
@@ -148,18 +150,27 @@ before `let c = self.chars.next()?;`:
 @*/
 
 /*@ fn src/lexer/cursor.rs Cursor::eat_while
-tags C03
+tags C03 C17
 spec:
         requires old(self).inv(), forall|c: char| #[trigger] predicate.requires((c,)),
         ensures final(self).inv(), final(self).mark() == old(self).mark(),
             suffix(old(self).rem(), final(self).rem()),
+            final(self).rem().len() <= old(self).rem().len(),
+            // every character eaten satisfies the predicate; the next one (if any) does not
+            forall|i: int| 0 <= i < old(self).rem().len() - final(self).rem().len() ==> predicate.ensures((#[trigger] old(self).rem()[i],), true),
+            final(self).rem().len() > 0 ==> predicate.ensures((final(self).rem()[0],), false),
+            final(self).rem().len() == old(self).rem().len() ==> final(self).prev_spec() == old(self).prev_spec(),
 before `while predicate(`:
         proof { assert(self.rem().skip(0) =~= self.rem()); }
+        let ghost p0 = predicate;
 loop 0:
             invariant
                 self.inv(), self.mark() == old(self).mark(),
                 forall|c: char| #[trigger] predicate.requires((c,)),
                 exists|k: int| 0 <= k <= old(self).rem().len() && self.rem() == old(self).rem().skip(k),
+                self.rem().len() <= old(self).rem().len(), predicate == p0,
+                forall|i: int| 0 <= i < old(self).rem().len() - self.rem().len() ==> predicate.ensures((#[trigger] old(self).rem()[i],), true),
+                self.rem().len() == old(self).rem().len() ==> self.prev_spec() == old(self).prev_spec(),
             decreases self.fuel()
 before `self.bump();`:
             let ghost pre = self.rem();
@@ -168,6 +179,9 @@ after `self.bump();`:
             proof {
                 assert(self.rem() == pre.drop_first());
                 assert(pre.drop_first() =~= old(self).rem().skip(k0 + 1));
+                assert(pre.len() == old(self).rem().len() - k0);
+                assert(old(self).rem()[k0] == pre[0]);
+                assert(old(self).rem().len() - self.rem().len() == k0 + 1);
             }
 @*/
 }
@@ -224,6 +238,45 @@ spec:
 tags C03
 @*/
 
+/// C17/C04: what the characters `e` of one token look like, per kind
+pub open spec fn one_char_kind(k: TokenKind, c: char) -> bool {
+    match k {
+        TokenKind::TextStep => c == '>', TokenKind::Colon => c == ':', TokenKind::At => c == '@', TokenKind::Hash => c == '#',
+        TokenKind::Tilde => c == '~', TokenKind::Question => c == '?', TokenKind::Plus => c == '+', TokenKind::Minus => c == '-',
+        TokenKind::Slash => c == '/', TokenKind::Star => c == '*', TokenKind::And => c == '&', TokenKind::Or => c == '|',
+        TokenKind::Eq => c == '=', TokenKind::Percent => c == '%', TokenKind::OpenBrace => c == '{', TokenKind::CloseBrace => c == '}',
+        TokenKind::OpenParen => c == '(', TokenKind::CloseParen => c == ')', TokenKind::Dot => c == '.',
+        _ => false,
+    }
+}
+pub open spec fn is_one_char_kind(k: TokenKind) -> bool {
+    k == TokenKind::TextStep || k == TokenKind::Colon || k == TokenKind::At || k == TokenKind::Hash || k == TokenKind::Tilde || k == TokenKind::Question
+    || k == TokenKind::Plus || k == TokenKind::Minus || k == TokenKind::Slash || k == TokenKind::Star || k == TokenKind::And || k == TokenKind::Or
+    || k == TokenKind::Eq || k == TokenKind::Percent || k == TokenKind::OpenBrace || k == TokenKind::CloseBrace || k == TokenKind::OpenParen
+    || k == TokenKind::CloseParen || k == TokenKind::Dot
+}
+/// the characters `c` of a block comment starting at offset `from` (0 for the whole token `[- .. -]`, 1 after the `[`):
+/// it ends at the FIRST `-]` after the opening `[-`, or runs to the end of the input
+pub open spec fn bc_closed(c: Seq<char>, from: int) -> bool { c.len() >= 4 - from && c[c.len() - 2] == '-' && c[c.len() - 1] == ']' }
+pub open spec fn bc_ok(c: Seq<char>, from: int, at_eof: bool) -> bool {
+    &&& c.len() >= 2 - from && c[1 - from] == '-'
+    &&& (bc_closed(c, from) || at_eof)
+    &&& forall|i: int| 2 - from <= i && i + 1 < c.len() && !(bc_closed(c, from) && i == c.len() - 2) ==> !(#[trigger] c[i] == '-' && c[i + 1] == ']')
+}
+pub open spec fn shape(k: TokenKind, e: Seq<char>, rest: Seq<char>) -> bool {
+    &&& (is_one_char_kind(k) ==> e.len() == 1 && one_char_kind(k, e[0]))
+    &&& (k == TokenKind::MetadataStart ==> e =~= seq!['>', '>'])
+    // an escape is a backslash plus at most one character
+    &&& (k == TokenKind::Escaped ==> 1 <= e.len() <= 2 && e[0] == '\\' && (e.len() == 1 ==> rest.len() == 0))
+    // LF and CRLF are one Newline token covering exactly those characters
+    &&& (k == TokenKind::Newline ==> e =~= seq!['\n'] || e =~= seq!['\r', '\n'])
+    // a line comment is `--` up to, not including, the end of the line
+    &&& (k == TokenKind::LineComment ==> e.len() >= 2 && e[0] == '-' && e[1] == '-' && (forall|i: int| 2 <= i < e.len() ==> #[trigger] e[i] != '\n')
+            && (rest.len() > 0 ==> rest[0] == '\n'))
+    &&& (k == TokenKind::Punctuation ==> e.len() == 1)
+    // a block comment ends at the first `-]`
+    &&& (k == TokenKind::BlockComment ==> e[0] == '[' && bc_ok(e, 0, rest.len() == 0))
+}
 impl Cursor<'_> {
 /*@ fn src/lexer/mod.rs Cursor::advance_token
 tags C03 C04 C17
@@ -231,12 +284,37 @@ ret token
 spec:
         requires old(self).at_start(), utf8len(old(self).rem()) <= u32::MAX,
         ensures final(self).at_start(), suffix(old(self).rem(), final(self).rem()),
+            final(self).rem().len() <= old(self).rem().len(),
+            shape(token.kind, eaten(old(self).rem(), final(self).rem()), final(self).rem()),     // [C17] [C04]
             token.len == utf8len(old(self).rem()) - utf8len(final(self).rem()),   // [C04] [C05]
             (token.kind == TokenKind::Eof) == (old(self).rem().len() == 0),
             old(self).rem().len() > 0 ==> token.len >= 1,                          // [C03] [C04]
             old(self).rem().len() == 0 ==> final(self).rem() == old(self).rem() && token.len == 0,
 before `let current = match self.bump() {`:
         broadcast use {lemma_suffix_trans_b, lemma_suffix_len};
+before `let token_kind = match current {`:
+        let ghost r1 = self.rem();
+        proof { assert(r1 == old(self).rem().drop_first()); assert(old(self).rem()[0] == current); }
+before `let token = Token::new(token_kind, self.pos_within_token());`:
+        proof {
+            let o = old(self).rem(); let f = self.rem();
+            assert(r1.skip(0) =~= r1);
+            assert(suffix(r1, f));
+            let k1 = choose|k: int| 0 <= k <= r1.len() && f == r1.skip(k);
+            assert(f.len() == r1.len() - k1);
+            assert(o.len() - f.len() == k1 + 1);
+            let e = eaten(o, f);
+            assert(e.len() == k1 + 1);
+            assert(e[0] == current);
+            assert forall|i: int| 1 <= i < e.len() implies e[i] == r1[i - 1] by {}
+            if token_kind == TokenKind::LineComment {
+                assert(e[1] == r1[0]);
+                assert forall|i: int| 2 <= i < e.len() implies #[trigger] e[i] != '\n' by { assert(e[i] == r1[i - 1]); }
+            }
+            if token_kind == TokenKind::MetadataStart { assert(e =~= seq!['>', '>']); }
+            if token_kind == TokenKind::Newline { assert(e =~= seq!['\n'] || e =~= seq!['\r', '\n']); }
+            assert(shape(token_kind, e, f));
+        }
 @*/
 
 /*@ fn src/lexer/mod.rs Cursor::line_comment
@@ -246,6 +324,11 @@ spec:
         requires old(self).inv(), old(self).mark() <= u32::MAX,
             old(self).prev_spec() == '-', old(self).rem().len() > 0, old(self).rem()[0] == '-',
         ensures final(self).inv(), final(self).mark() == old(self).mark(), suffix(old(self).rem(), final(self).rem()), r == TokenKind::LineComment,
+            final(self).rem().len() <= old(self).rem().len(), old(self).rem().len() - final(self).rem().len() >= 1,
+            forall|i: int| 0 <= i < old(self).rem().len() - final(self).rem().len() ==> #[trigger] old(self).rem()[i] != '\n',
+            final(self).rem().len() > 0 ==> final(self).rem()[0] == '\n',
+closure 0 `char` ret `b: bool`:
+        ensures b == (c != '\n')
 @*/
 
 /*@ fn src/lexer/mod.rs Cursor::block_comment
@@ -255,13 +338,26 @@ spec:
         requires old(self).inv(), old(self).mark() <= u32::MAX,
             old(self).prev_spec() == '[', old(self).rem().len() > 0, old(self).rem()[0] == '-',
         ensures final(self).inv(), final(self).mark() == old(self).mark(), suffix(old(self).rem(), final(self).rem()), r == TokenKind::BlockComment,
+            final(self).rem().len() <= old(self).rem().len(),
+            bc_ok(eaten(old(self).rem(), final(self).rem()), 1, final(self).rem().len() == 0),    // [C17]
 before `while let Some(c) = self.bump()`:
         broadcast use lemma_suffix_trans_b;
+        let ghost o = old(self).rem();
+        proof { assert(self.rem() == o.drop_first()); assert(o.skip(1) =~= o.drop_first()); }
 loop 0:
-            invariant self.inv(), self.mark() == old(self).mark(), suffix(old(self).rem(), self.rem()),
+            invariant_except_break
+                forall|i: int| 1 <= i && i + 1 < o.len() - self.rem().len() ==> !(#[trigger] o[i] == '-' && o[i + 1] == ']'),
+                o.len() - self.rem().len() >= 2 && o[o.len() - self.rem().len() - 1] == '-' ==> (self.rem().len() == 0 || self.rem()[0] != ']'),
+            invariant self.inv(), self.mark() == old(self).mark(), suffix(old(self).rem(), self.rem()), o == old(self).rem(),
+                1 <= o.len() - self.rem().len(), self.rem() == o.skip(o.len() - self.rem().len()), o[0] == '-',
+            ensures
+                self.rem().len() <= o.len(),
+                bc_ok(eaten(o, self.rem()), 1, self.rem().len() == 0),
             decreases self.fuel()
 before `match c {`:
             broadcast use lemma_suffix_trans_b;
+            let ghost n = o.len() - self.rem().len();
+            proof { assert(o.skip(n - 1).drop_first() =~= o.skip(n)); assert(o[n - 1] == c); }
 @*/
 
 /*@ fn src/lexer/mod.rs Cursor::word
